@@ -151,7 +151,7 @@ impl Check for C09 {
         ]
     }
     fn rule(&self) -> &'static str {
-        "Determinism: 'det-fd' (FD programs with >= 3 interacting constraints, where wake-up and labeling order could follow hash order), 'det-tree' (==/!= programs with hostile subsuming disequalities; one in five takes a list of user-written `_` variables apart and chains them in a non-linear disequality, so the keys of the stored pairs all have the same NAME), 'det-search' (disjunction/recursion programs). Each program: the SAME Query value is run twice in one thread, the AST is rebuilt and run again, and it is run on 5 (quick) / 8 (thorough) fresh threads (fresh SipHash keys); 'xproc' additionally runs the program in 2 fresh PROCESSES. All answer sequences must be identical up to renaming of reified variables (first-occurrence order) and the order of constraints / pairs (L1). Differences are classified: equal after bringing every disequality to solved form (L2) = representation-only; equal as a multiset of ground-instance sets (L3) = order-only; otherwise semantic. Fused: after every exhausted stream next() is called 3 more times and must return None. Laziness: programs with infinitely many answers (loop, always, append with fresh arguments, never()/diverging dfs branch next to a producer, directly and mutually recursive closures without a fresh block run breadth-first and inside dfs { }) must deliver their first 12 answers within 2*10^6 engine steps (hook H1). Distinct = distinct program text; non-trivial = at least one answer."
+        "Determinism: 'det-fd' (FD programs with >= 3 interacting constraints, where wake-up and labeling order could follow hash order), 'det-tree' (==/!= programs with hostile subsuming disequalities; one in five takes a list of user-written `_` variables apart and chains them in a non-linear disequality, so the keys of the stored pairs all have the same NAME), 'det-search' (disjunction/recursion programs). Each program: the SAME Query value is run twice in one thread, the AST is rebuilt and run again, and it is run on 5 (quick) / 8 (thorough) fresh threads (fresh SipHash keys); 'xproc' additionally runs the program in 2 fresh PROCESSES. For every det-search program and a quarter of the others two iterators are alive at once: the first iterator of the query is suspended after 1-2 answers while an older, different query is run to its end and a second iterator of the same query value is started and exhausted, then the first is continued; both must yield the sequence of the query run alone. All answer sequences must be identical up to renaming of reified variables (first-occurrence order) and the order of constraints / pairs (L1). Differences are classified: equal after bringing every disequality to solved form (L2) = representation-only; equal as a multiset of ground-instance sets (L3) = order-only; otherwise semantic. Fused: after every exhausted stream next() is called 3 more times and must return None. Laziness: programs with infinitely many answers (loop, always, append with fresh arguments, never()/diverging dfs branch next to a producer, directly and mutually recursive closures without a fresh block run breadth-first and inside dfs { }) must deliver their first 12 answers within 2*10^6 engine steps (hook H1). Distinct = distinct program text; non-trivial = at least one answer."
     }
     fn assumptions(&self) -> Vec<String> {
         vec!["fresh threads and fresh processes stand for 'a different hash seed' (std RandomState keys are per thread)".into(), "laziness is decided as bounded progress in engine steps, not wall-clock".into()]
@@ -163,7 +163,7 @@ impl Check for C09 {
         }
     }
     fn required_counters(&self) -> Vec<&'static str> {
-        vec!["sequences_compared", "exhausted_streams_probed_after_none", "lazy_prefixes_delivered", "cross_process_runs", "programs_with_constraint_answers", "fd_programs_with_answers"]
+        vec!["sequences_compared", "interleaved_iterator_pairs", "exhausted_streams_probed_after_none", "lazy_prefixes_delivered", "cross_process_runs", "programs_with_constraint_answers", "fd_programs_with_answers"]
     }
     fn run_case(&self, gen: &str, seed: u64, index: u64, tier: Tier) -> CaseOut {
         let mut out = CaseOut::default();
@@ -218,6 +218,26 @@ impl Check for C09 {
             }
             if r.fused_violation {
                 out.violate("M-ans", "iterator returned Some after None", format!("{}: next() returned Some after the iterator had returned None", name), format!("{}", prog));
+            }
+        }
+        // two iterators alive at the same time (det-search: relations create variables lazily while the
+        // stream is consumed): an older query is run, and a second iterator of this query is started
+        // and exhausted, while the first iterator is suspended after its first answer(s)
+        if dgen == "det-search" || index % 4 == 0 {
+            let other = det_program("det-search", &mut rng);
+            let k = 1 + rng.below(2);
+            let (i1, i2) = run_query_interleaved(&other, &prog, &cfg, k);
+            if let Some(p) = &i1.panic {
+                out.violate("M-panic", &format!("panic {} at {}", p.message, p.location), format!("interleaved iterators: panic '{}' at {}", p.message, p.location), format!("{}", prog));
+                return out;
+            }
+            if i1.budget_exceeded {
+                // the other query (or the three runs together) used up the step budget: no verdict
+                out.count("interleaved_runs_over_budget", 1);
+            } else {
+            out.count("interleaved_iterator_pairs", 1);
+            runs.push((format!("iterator 1, suspended after {} answer(s) while another query and a second iterator ran", k), i1));
+            runs.push(("iterator 2, started while iterator 1 was suspended".into(), i2));
             }
         }
         let base = &runs[0].1;
